@@ -34,7 +34,8 @@ VarCfgs == [k : {"var"}, loc : {"root", "inc"}, via : {"cmd", "dep", "defer"}, t
 \* dotenv: which of the two listed files define E ("first" file wins)
 D4 == {"none", "first", "second", "both"}
 \* os: the process environment does not have E / has it with a value / has it with the EMPTY value (still "set")
-EnvCfgs == [k : {"env"}, tenv : KE, tdot : D4, genv : KE, gdot : D4, os : {"unset", "set", "empty"}, experiment : BOOLEAN]
+EnvCfgs == [k : {"env"}, tenv : KE, tdot : D4, genv : KE, gdot : D4, os : {"unset", "set", "empty"}, experiment : BOOLEAN,
+            evar : BOOLEAN]   \* a Taskfile-level VARIABLE of the same name exists: variables never decide the environment
 
 Apply(cur, kind, site) ==
   CASE kind = "none" -> cur
